@@ -283,14 +283,32 @@ theorem C15_routes_agree {Cfg Doc Err Decl : Type} (checkOp : Lookup → Doc →
   exact ⟨s, hs, fun D => C15_check_verdict_eq checkOp he D, fun c D a => C15_types_eq decls he c D a⟩
 
 /-!
+## Wave 3 — the concrete consumers: see `Props/C15Concrete.lean`
+
+The hypothesis of `C15_routes_agree` ("reads the schema only through the lookup interface") is now PROVED for the
+executable models of the real consumers, which read a schema through the document view `Gql.Schema`:
+`C15_lookups_factor` (every lookup of the operation checker model is a function of `lookupOf`),
+`C15_checkOp_routes_eq` / `_verdict` / `_eq_partial` (operation checker `CheckOp.checkOp`: same diagnostics on the two
+routes), `C15_implTree_routes_eq` / `C15_opDecls_routes_eq` (operation type printer `OpTypes`: same trees up to leaf
+positions, equal declarations), `C15_schemaDecls_routes_eq` / `_same_aliases` / `_namespace_eq` /
+`_representative_eq` (schema declaration printer `SchemaDecls`: equal statements per alias), and the SDL half against the
+specification (`C15_sdl_route_is_spec`).  The side conditions are the documented exemptions, each shown necessary by a
+kernel-checked witness (`…_counterexample`).
+
 ## OPEN — carried by K/O only
 
-That the REAL checker (`check_operation_document`) and the REAL printers read the schema only through `lookupOf` — the
-hypothesis under which `C15_routes_agree` applies to them (descriptions, deprecation reasons and default-value texts
-reach JSDoc comments only; the order of definitions reaches declaration order and union-member order only; `__*` types
-are asked for only by documents that name them) — is NOT proved: the checker and printer models of the other
-properties work over `Gql.Schema`, not over `SchemaIR`. It is carried by O: same verdicts, diagnostics and per-alias
-declarations from two real CLI projects that differ in the schema file only, on every generated case.
+* That the MODELS `CheckOp` / `OpTypes` / `SchemaDecls` are the real `check_operation_document` / printers is the K
+  evidence of C03/C04, C01/C02 and C10 (on SDL inputs); C15's own O stream compares the real CLI on the two routes.
+  In particular `CheckOp.checkOperation` tests "the schema definition has a parsed position" where the real code (since
+  4dcb71b) tests "parsed position OR some root type is set"; the two coincide on parsed documents, and `Bridge.ofIR`
+  marks the schema definition of a schema VALUE as parsed exactly when root types are declared (`Bridge.sees_ofIR`).
+* Whole-file statements of the schema declaration file: the order of declarations, the `__nitrogql_schema` metadata
+  object (object-key order differs: document order on the SDL route, query/mutation/subscription on the JSON route), the
+  field-level JSDoc (`fieldDocs`: `@deprecated` tags are lost on the JSON route — exempt), and the resolvers file
+  (no Lean model of `ResolverTypePrinter` here).
+* Diagnostics of documents outside the exemptions (`docOk`) and of schemas with unresolved references
+  (`TypeSystemError` positions point into the schema source on the SDL route only — witness
+  `C15_checkOp_unresolved_reference_counterexample`).
 
 `routeSdl M = astToSchema (M ++ builtins)` places the built-ins after `M`, as `extend_loaded_schema` does; the real
 pipeline then regroups the definitions in `resolve_schema_extensions` (C11). `≃` does not depend on that order; the K
